@@ -601,4 +601,180 @@ theorem ex_entry :
 
 end NonVacuity
 
+/-! ## conformer storage order (C03, second half)
+
+Re-storing the conformers of a molecule in another order changes where each fingerprint sits in the
+lists (and hence its name index) but not the fingerprint of any conformer. -/
+
+/-- the fingerprint at key `k` a fresh fingerprinter computes for the geometry `g` (a default where the
+run or the fetch fails; never reached below) -/
+def directFp (o : Opts) (m : MolG) (k : Int) (g : Geo) : Fp :=
+  match runFp o m g with
+  | .ok s =>
+    match fingerprintAt o s (some k) none [] with
+    | .ok f => f
+    | .error _ => default
+  | .error _ => default
+
+section Order
+variable {o : Opts} {mid : Nat} {m : MolG} {geos geos' : List Geo} {name : Option (List Char)}
+  {allIters : Bool} {d d' : LevelDict}
+
+/-- the fingerprints of an entry's list are a function of the geometries alone, in storage order -/
+theorem entry_fps {first : Int} (h : entryRun o mid m geos name first allIters = .ok (some d))
+    (p : Int × List NamedFp) (hp : p ∈ d) :
+    p.2.map (·.fp) = (geos.take (firstN first geos.length)).map (directFp o m p.1) := by
+  have hlen := (entry_count h).1 p hp
+  have hle := firstN_le first geos.length
+  apply List.ext_getElem
+  · simp [hlen, Nat.min_eq_left hle]
+  · intro i h1 h2
+    have hi : i < p.2.length := by simpa using h1
+    obtain ⟨hg, s, hr, hf, _⟩ := entry_cell h p hp i hi
+    simp only [List.getElem_map, List.getElem_take]
+    unfold directFp
+    simp only [hr, hf]
+
+theorem entry_fps_all (h : entryRun o mid m geos name (-1) allIters = .ok (some d))
+    (p : Int × List NamedFp) (hp : p ∈ d) : p.2.map (·.fp) = geos.map (directFp o m p.1) := by
+  rw [entry_fps h p hp, C14.firstN_all, List.take_length]
+
+/-- a dictionary for all conformers means: every conformer's run succeeds and every level key's
+fingerprint can be fetched from it -/
+theorem entry_all_ok (h : entryRun o mid m geos name (-1) allIters = .ok (some d))
+    (k : Int) (hk : k ∈ levelKeys o.level allIters) (g : Geo) (hg : g ∈ geos) :
+    ∃ s f, runFp o m g = .ok s ∧ fingerprintAt o s (some k) none [] = .ok f := by
+  obtain ⟨i, hi, rfl⟩ := List.getElem_of_mem hg
+  have hN : firstN (-1) geos.length = geos.length := C14.firstN_all _
+  obtain ⟨hlen, hkeys, _⟩ := entry_count h
+  rw [hN] at hlen hkeys
+  rw [← hkeys (by omega)] at hk
+  obtain ⟨p, hp, rfl⟩ := List.mem_map.1 hk
+  obtain ⟨_, s, hr, hf, _⟩ := entry_cell h p hp i (by rw [hlen p hp]; exact hi)
+  exact ⟨s, _, hr, hf⟩
+
+/-- the entry point also succeeds on any re-stored conformer list (same number of conformers, each of
+them one of the original ones), with the same keys -/
+theorem entry_restored_exists (h : entryRun o mid m geos name (-1) allIters = .ok (some d))
+    (hlen : geos'.length = geos.length) (hsub : ∀ g ∈ geos', g ∈ geos) :
+    ∃ d', entryRun o mid m geos' name (-1) allIters = .ok (some d') ∧ d'.map (·.1) = d.map (·.1) := by
+  obtain ⟨hbad, _⟩ := entry_some h
+  have hc : ¬ ((o.level = -1 && !o.removeDup) = true) := by
+    intro hc; apply hbad; simpa using hc
+  by_cases h0 : geos.length = 0
+  · have e1 : geos = [] := List.eq_nil_of_length_eq_zero h0
+    have e2 : geos' = [] := List.eq_nil_of_length_eq_zero (by omega)
+    subst e1; subst e2
+    exact ⟨d, h, rfl⟩
+  · have hN : firstN (-1) geos.length = geos.length := C14.firstN_all _
+    have hN' : firstN (-1) geos'.length = geos'.length := C14.firstN_all _
+    have hsome : (entrySpec o m geos' name (-1) allIters).isSome = true := by
+      rw [entrySpec_eq, hN', if_neg (by omega)]
+      apply omapM_isSome
+      intro k hk
+      rw [Option.isSome_map]
+      apply omapM_isSome
+      intro j hj
+      have hj : j < geos'.length := List.mem_range.1 hj
+      have hgd : geos'.getD j noGeo = geos'[j] := by simp [List.getD_eq_getElem?_getD, hj]
+      obtain ⟨s, f, hr, hf⟩ := entry_all_ok h k hk geos'[j] (hsub _ (List.getElem_mem hj))
+      rw [hgd, specCell_ok o m name k geos'[j] j s hr]
+      unfold fpCell
+      rw [hf]
+      rfl
+    obtain ⟨d', hd'⟩ := Option.isSome_iff_exists.1 hsome
+    have hrun : entryRun o mid m geos' name (-1) allIters = .ok (some d') := by
+      rw [entry_eq_direct, if_neg hc, hd']
+    refine ⟨d', hrun, ?_⟩
+    rw [(entry_count hrun).2.1 (by rw [hN']; omega), (entry_count h).2.1 (by rw [hN]; omega)]
+
+/-- position by position: the fingerprint stored at position `j` after re-storing is the one stored
+at position `σ j` before -/
+theorem entry_order_fp (σ : Nat → Nat)
+    (hσ : ∀ j (hj : j < geos'.length), ∃ hs : σ j < geos.length, geos'[j] = geos[σ j])
+    (h : entryRun o mid m geos name (-1) allIters = .ok (some d))
+    (h' : entryRun o mid m geos' name (-1) allIters = .ok (some d'))
+    (key : Int) (l l' : List NamedFp) (hl : (key, l) ∈ d) (hl' : (key, l') ∈ d')
+    (j : Nat) (hj : j < l'.length) : ∃ hs : σ j < l.length, l'[j].fp = l[σ j].fp := by
+  have e := entry_fps_all h (key, l) hl
+  have e' := entry_fps_all h' (key, l') hl'
+  have hlen : l.length = geos.length := by simpa using congrArg List.length e
+  have hlen' : l'.length = geos'.length := by simpa using congrArg List.length e'
+  obtain ⟨hs, hg⟩ := hσ j (by omega)
+  have hs' : σ j < l.length := by omega
+  refine ⟨hs', ?_⟩
+  have a := List.getElem_of_eq e' (i := j) (by simpa using hj)
+  have b := List.getElem_of_eq e (i := σ j) (by simpa using hs')
+  simp only [List.getElem_map] at a b
+  rw [a, b, hg]
+
+/-- as multisets: a permutation of the stored conformers permutes the fingerprints of every key -/
+theorem entry_order_perm (hperm : geos'.Perm geos)
+    (h : entryRun o mid m geos name (-1) allIters = .ok (some d))
+    (h' : entryRun o mid m geos' name (-1) allIters = .ok (some d'))
+    (key : Int) (l l' : List NamedFp) (hl : (key, l) ∈ d) (hl' : (key, l') ∈ d') :
+    (l'.map (·.fp)).Perm (l.map (·.fp)) := by
+  rw [entry_fps_all h (key, l) hl, entry_fps_all h' (key, l') hl']
+  exact hperm.map _
+
+/-- **conformer storage order** (index form): if `geos'` is `geos` re-stored so that position `j`
+holds the old conformer `σ j`, the entry point still returns a dictionary, with the same keys, and
+under every key the fingerprint at position `j` is the old fingerprint at position `σ j` -/
+theorem entry_conformer_order (o : Opts) (mid : Nat) (m : MolG) (geos geos' : List Geo)
+    (name : Option (List Char)) (allIters : Bool) (σ : Nat → Nat) {d : LevelDict}
+    (hlen : geos'.length = geos.length)
+    (hσ : ∀ j (hj : j < geos'.length), ∃ hs : σ j < geos.length, geos'[j] = geos[σ j])
+    (h : entryRun o mid m geos name (-1) allIters = .ok (some d)) :
+    ∃ d', entryRun o mid m geos' name (-1) allIters = .ok (some d') ∧ d'.map (·.1) = d.map (·.1) ∧
+      ∀ key l l', (key, l) ∈ d → (key, l') ∈ d' →
+        ∀ j (hj : j < l'.length), ∃ hs : σ j < l.length, l'[j].fp = l[σ j].fp := by
+  have hsub : ∀ g ∈ geos', g ∈ geos := by
+    intro g hg
+    obtain ⟨j, hj, rfl⟩ := List.getElem_of_mem hg
+    obtain ⟨hs, he⟩ := hσ j hj
+    rw [he]; exact List.getElem_mem hs
+  obtain ⟨d', h', hkeys⟩ := entry_restored_exists h hlen hsub
+  exact ⟨d', h', hkeys, fun key l l' hl hl' j hj => entry_order_fp σ hσ h h' key l l' hl hl' j hj⟩
+
+/-- **conformer storage order** (multiset form): for a permutation of the stored conformers the entry
+point still returns a dictionary, with the same keys, and under every key the list of fingerprints is
+a permutation of the old one -/
+theorem entry_conformer_perm (o : Opts) (mid : Nat) (m : MolG) (geos geos' : List Geo)
+    (name : Option (List Char)) (allIters : Bool) {d : LevelDict} (hperm : geos'.Perm geos)
+    (h : entryRun o mid m geos name (-1) allIters = .ok (some d)) :
+    ∃ d', entryRun o mid m geos' name (-1) allIters = .ok (some d') ∧ d'.map (·.1) = d.map (·.1) ∧
+      ∀ key l l', (key, l) ∈ d → (key, l') ∈ d' → (l'.map (·.fp)).Perm (l.map (·.fp)) := by
+  obtain ⟨d', h', hkeys⟩ := entry_restored_exists h hperm.length_eq (fun g hg => hperm.subset hg)
+  exact ⟨d', h', hkeys, fun key l l' hl hl' => entry_order_perm hperm h h' key l l' hl hl'⟩
+
+end Order
+
+/-! ### non-vacuity: the two conformers of `ex_entry` stored the other way round -/
+
+/-- both storage orders give a (non-empty) dictionary with the same keys; under every key the two
+fingerprints are swapped -/
+theorem ex_entry_swapped :
+    ∃ d d', entryRun Ex.o 7 Ex.m [Ex.g, g2] (some ['m', 'o', 'l']) (-1) true = .ok (some d) ∧
+      entryRun Ex.o 7 Ex.m [g2, Ex.g] (some ['m', 'o', 'l']) (-1) true = .ok (some d') ∧
+      d ≠ [] ∧ d'.map (·.1) = d.map (·.1) ∧
+      ∀ key l l', (key, l) ∈ d → (key, l') ∈ d' →
+        (∀ j (hj : j < l'.length), ∃ hs : 1 - j < l.length, l'[j].fp = l[1 - j].fp) ∧
+        (l'.map (·.fp)).Perm (l.map (·.fp)) := by
+  obtain ⟨d, hd, hne, _, _⟩ := ex_entry
+  have hσ : ∀ j (hj : j < [g2, Ex.g].length),
+      ∃ hs : (fun j => 1 - j) j < [Ex.g, g2].length, [g2, Ex.g][j] = [Ex.g, g2][(fun j => 1 - j) j] := by
+    intro j hj
+    have hj2 : j < 2 := hj
+    have : j = 0 ∨ j = 1 := by omega
+    rcases this with rfl | rfl
+    · exact ⟨Nat.lt_succ_self 1, rfl⟩
+    · exact ⟨Nat.zero_lt_succ 1, rfl⟩
+  obtain ⟨d', hd', hkeys, hfp⟩ :=
+    entry_conformer_order Ex.o 7 Ex.m [Ex.g, g2] [g2, Ex.g] (some ['m', 'o', 'l']) true (fun j => 1 - j)
+      rfl hσ hd
+  refine ⟨d, d', hd, hd', hne, hkeys, ?_⟩
+  intro key l l' hl hl'
+  exact ⟨hfp key l l' hl hl',
+    entry_order_perm (List.Perm.swap Ex.g g2 []) hd hd' key l l' hl hl'⟩
+
 end E3fpVerif.Props.C14Entry
